@@ -226,9 +226,11 @@ pub fn run(ctx: &Ctx) -> i32 {
     });
 
     // ---- tall and wide files: line numbers beyond 16 and 17 bits, offsets beyond 24 bits, very long lines
-    let ntall = ctx.tier.pick(6u64, 24u64);
+    let ntall = ctx.tier.pick(16u64, 48u64);
     run_workload(ctx, &mut acc, "tall-files", ntall, |k, rng, acc| {
-        let lines_before = [40_000usize, 66_000, 70_000, 131_100, 200_000, 300_000][(k % 6) as usize];
+        // (1 500 and 6 000 comment lines make files of about 80 kB and 320 kB: beyond 64 KiB and 256 KiB)
+        let lines_before = [40_000usize, 66_000, 70_000, 131_100, 200_000, 300_000, 1_500, 6_000][(k % 8) as usize];
+        let crlf = (k / 8) % 2 == 1 || k % 8 >= 6 && k % 2 == 1;
         let mut t = String::from("pragma solidity ^0.8.0;\n");
         let filler = match k % 3 {
             0 => "\n".to_string(),
@@ -243,6 +245,10 @@ pub fn run(ctx: &Ctx) -> i32 {
             // one very long line before the contract
             let long = format!("/* {} */\n", "long ".repeat(40_000));
             t = t.replacen("contract Tall", &format!("{}contract Tall", long), 1);
+        }
+        if crlf {
+            t = t.replace('\n', "\r\n");
+            acc.cov("tall-files:crlf");
         }
         acc.cov(&format!("tall-files:{}-lines", lines_before));
         check_plumbing(&format!("tall#{}", k), "tall", &t, acc);
